@@ -3,14 +3,17 @@ package driver
 func init() {
 	var quick, thorough []*Job
 	b := "writers whose calls all returned before Close is invoked (structurally), queue size q, wait-forever / bounded-wait mode; ALL interleavings of sender (incl. release/re-acquire window), executor start-up and closer; poll loop cut after 3 contended polls (stutter steps)"
+	n := int64(0)
 	add := func(list *[]*Job, args ...int64) {
-		*list = append(*list, &Job{Pkg: "", Func: "ZZ_C06_Close", Args: args, Bounds: b})
+		// close argument kinds (plain error, nil, timeout net.Error, wrapped net.Error) rotate over the jobs
+		*list = append(*list, &Job{Pkg: "", Func: "ZZ_C06_Close", Args: append(args, n%4), Bounds: b})
+		n++
 	}
 	// (q, until, nw, ww, wwOther, entries)
 	for _, q := range []int64{1, 2} {
 		for _, until := range []int64{1, 0} {
 			add(&quick, q, until, 1, 2, 0, 0)
-			add(&quick, q, until, 2, 1, 1, 1*5+0)
+			add(&quick, q, until, 2, 1, 1, 1*8+0)
 		}
 	}
 	add(&quick, 1, 1, 1, 1, 0, 1)
@@ -19,9 +22,9 @@ func init() {
 			add(&thorough, q, until, 1, 3, 0, 2)
 		}
 	}
-	add(&thorough, 1, 1, 2, 2, 1, 3*5+4)
-	add(&thorough, 2, 1, 2, 2, 1, 1*5+0)
-	add(&thorough, 3, 0, 2, 2, 1, 3*5+4)
+	add(&thorough, 1, 1, 2, 2, 1, 3*8+4)
+	add(&thorough, 2, 1, 2, 2, 1, 1*8+0)
+	add(&thorough, 3, 0, 2, 2, 1, 3*8+4)
 	Specs["C06"] = &Spec{
 		Jobs: jobsBy(quick, thorough), Labels: labelFilter("c06-"),
 		MustReach: []string{"c06-close-within-grace", "c06-done"},
